@@ -220,7 +220,7 @@ def instantiate(rules, feats):
 
 # ---- lexical-ambiguity family: the same head and body listed with two different annotations
 # S -> N V ; N -> n (twice) ; V -> v ; V -> w
-A3_NAMES = [("S", "N", "V"), ("S", "Gamma", "V"), ("Gamma", "N", "V"), ("S", "Gamma", "Gamma'")]
+A3_NAMES = [("S", "N", "V"), ("S", "Gamma", "V"), ("Gamma", "N", "V"), ("S", "Gamma", "Gamma'"), ("S", "Gamma'", "Gamma")]
 A3_LEX = ["", "[F=p]", "[F=q]"]
 A3_OCC = ["", "[F=?a]", "[F=p]", "[F=q]"]
 
